@@ -123,7 +123,7 @@ theorem fold_connect_line (r : Rec) (hlin : r.circular = false) : ∀ (l : List 
     · rw [hh]
       simp [hullIv, minList, maxList, Loc.start, Loc.end]
 
-theorem mapM_ok_of_forall {α β : Type} (f : α → E β) (g : α → β) : ∀ (l : List α), (∀ a ∈ l, f a = .ok (g a)) →
+theorem mapM_ok_map_of_forall {α β : Type} (f : α → E β) (g : α → β) : ∀ (l : List α), (∀ a ∈ l, f a = .ok (g a)) →
     l.mapM f = .ok (l.map g) := by
   intro l
   induction l with
@@ -140,7 +140,7 @@ theorem bisectLeft_line (items : List GeneInfo) (core : Loc) (hcore : bridgesOri
   have hlt : ∀ g ∈ items, featureLt g.loc core = .ok (ltLoc' g.loc core) := by
     intro g hg
     simp [ltLoc', featureLt_nb g.loc core (hnb g hg) hcore, Except.toOption]
-  simp only [bisectLeft, mapM_ok_of_forall _ _ items hlt, bind, Except.bind, pure, Except.pure, List.takeWhile_map,
+  simp only [bisectLeft, mapM_ok_map_of_forall _ _ items hlt, bind, Except.bind, pure, Except.pure, List.takeWhile_map,
     List.length_map]
   rfl
 
